@@ -23,15 +23,15 @@ PROP = "C13"
 BIN = "vh_c13"
 
 BUGS = ["load_no_ref", "freeze_no_forward", "add_to_heap_no_ref", "import_no_ref",
-        "globals_build_no_ref", "from_globals_no_ref", "eval_no_globals_ref"]
+        "globals_build_no_ref", "from_globals_no_ref", "eval_no_globals_ref", "rehome_no_ref"]
 M_ACTIONS = ["NewModule", "EvalLoad", "ImportPublic", "Freeze", "GetOwned", "AddToHeap",
-             "GlobalsFromModule", "GlobalsFromHandle", "UseGlobal", "ModuleFromGlobals",
+             "GlobalsFromModule", "GlobalsFromHandle", "Rehome", "UseGlobal", "ModuleFromGlobals",
              "DropOpen", "DropFrozen", "DropHandle", "Free"]
 G_OPS = ["new_module", "eval_load", "import_public", "freeze", "get_owned", "add_to_heap",
-         "globals_from_module", "globals_from_handle", "use_global", "module_from_globals",
+         "globals_from_module", "globals_from_handle", "rehome", "use_global", "module_from_globals",
          "drop_open", "drop_frozen", "drop_handle"]
 VIA_PATH = {"load": "load", "reexport": "reexport", "container": "container", "closure": "closure",
-            "owned": "owned", "add_to_heap": "add_to_heap", "globals": "globals", "import": "import",
+            "owned": "owned", "add_to_heap": "add_to_heap", "globals": "globals", "import": "import", "rehome": "rehome",
             "own": "own"}
 
 
